@@ -331,7 +331,10 @@ class ConcDomain(Domain):
                 i = it.rvalue(args[1], fr)
                 return self.index(b, i, e, fr)
             if op in ("->", "*") and len(args) == 1:
-                return it.rvalue(args[0], fr)
+                v_ = it.rvalue(args[0], fr)
+                if op == "*" and isinstance(v_, PtrInto):
+                    return self.elem_class()(v_.arr, v_.off, self, site)   # dereferenced iterator into a vector
+                return v_
             if op == "=" and len(args) == 2 and not self.prog.fns(callee):
                 # implicitly defined (memberwise) copy/move assignment
                 c = it.eval(args[0], fr)
@@ -390,6 +393,8 @@ class ConcDomain(Domain):
             if a is TOP or b is TOP:
                 return TOP
             return min(a, b) if base == "std::min" else max(a, b)
+        if callee.startswith("std::numeric_limits<double>::") or callee.startswith("std::numeric_limits<float>::"):
+            return TOP
         if base in ("std::abs", "abs") and len(args) == 1:
             a = it.rvalue(args[0], fr)
             return TOP if a is TOP else abs(a)
